@@ -3,7 +3,7 @@
    parameters are split without loss.
    ONLY statements closed by `exact`, with Print Assumptions beneath each. *)
 From Coq Require Import ZArith List Bool Permutation.
-From Mesa Require Import Common.ListX Generated.Tables Model.Viz Proofs.VizProofs.
+From Mesa Require Import Common.ListX Generated.Tables Model.Viz Proofs.VizProofs Proofs.VizBridge.
 Import ListNotations.
 Open Scope Z_scope.
 
@@ -181,6 +181,88 @@ Theorem C20_layer_view_is_statement : forall sp d,
 Proof. exact layer_view_spec. Qed.
 Print Assumptions C20_layer_view_is_statement.
 
+(* ---- code-level tie (T1): the functions below are TRANSLATED from the working tree on every run
+   (harness/tables/viz_code.py -> Generated.Tables gen_...); the model functions the theorems above talk about
+   ARE the translated source code (Proofs/VizBridge.v), and the headline theorems hold of that code itself ---- *)
+Theorem C20_source_check_is_model : forall s ps, check s ps = gen_check_model_params s ps.
+Proof. exact check_bridge. Qed.
+Print Assumptions C20_source_check_is_model.
+
+Theorem C20_source_split_is_model :
+  (forall v, check_param_is_fixed v = gen_check_param_is_fixed v) /\
+  (forall ps, split_model_params ps = gen_split_model_params ps).
+Proof. exact (conj fixed_bridge split_bridge). Qed.
+Print Assumptions C20_source_split_is_model.
+
+Theorem C20_source_scatter_is_model : forall c, scatter c = gen_scatter c.
+Proof. exact scatter_bridge. Qed.
+Print Assumptions C20_source_scatter_is_model.
+
+Theorem C20_source_collect_is_model :
+  (forall a, agent_loc a = gen_agent_loc a) /\
+  (forall pt dflt a, the_mark pt dflt a =
+     gen_collect_mark dflt DEF_COLOR DEF_MARKER DEF_ZORDER (portray pt (a_kind a)) (loc_of a)).
+Proof. exact (conj agent_loc_bridge collect_mark_bridge). Qed.
+Print Assumptions C20_source_collect_is_model.
+
+Theorem C20_source_hex_is_model :
+  (forall p, hex_center p = (gen_hex_center_x (fst p) (snd p), gen_hex_center_y (snd p))) /\
+  (forall w h, mesh_centres w h = gen_mesh_centres w h).
+Proof. exact (conj hex_center_bridge mesh_bridge). Qed.
+Print Assumptions C20_source_hex_is_model.
+
+Theorem C20_source_layers_are_model : forall w h d,
+  transpose w h d = gen_layer_image_cmap w h d /\ transpose w h d = gen_layer_image_color w h d /\
+  hex_layer_pairs w h d = combine (gen_mesh_centres w h) (gen_hex_layer_colors w h d).
+Proof. intros w h d. exact (conj (layer_cmap_bridge w h d) (conj (layer_color_bridge w h d) (hex_layer_bridge w h d))). Qed.
+Print Assumptions C20_source_layers_are_model.
+
+Theorem C20_source_altair_xy : forall p,
+  gen_altair_xy_old p = p /\ gen_altair_xy_new p = p /\ gen_altair_xy_cont p = p.
+Proof. exact altair_xy_bridge. Qed.
+Print Assumptions C20_source_altair_xy.
+
+(* the headline theorems, about the translated source code *)
+Theorem C20_check_iff_bindable_of_source : forall s ps,
+  wf_sig s -> ~ In SELF ps ->
+  (gen_check_model_params s ps = 0 <-> existsb (is_kind VarPos) s = false /\ bindable s ps = true).
+Proof. exact check_iff_bindable_of_source. Qed.
+Print Assumptions C20_check_iff_bindable_of_source.
+
+Theorem C20_scatter_partition_of_source : forall ms, Permutation (drawn_marks (gen_scatter (cols_of ms))) ms.
+Proof. exact scatter_partition_of_source. Qed.
+Print Assumptions C20_scatter_partition_of_source.
+
+Theorem C20_split_lossless_of_source : forall ps,
+  let r := gen_split_model_params ps in
+  Permutation (fst r ++ snd r) ps /\
+  (forall kv, In kv (fst r) -> adjustable (snd kv)) /\
+  (forall kv, In kv (snd r) -> ~ adjustable (snd kv)).
+Proof. exact split_lossless_of_source. Qed.
+Print Assumptions C20_split_lossless_of_source.
+
+Theorem C20_hex_layer_orientation_of_source : forall w h d x y,
+  0 <= x < w -> 0 <= y < h ->
+  lookup_coord (gen_hex_center_x x y, gen_hex_center_y y)
+               (combine (gen_mesh_centres w h) (gen_hex_layer_colors w h d)) = Some (dget d x y).
+Proof. exact hex_layer_orientation_of_source. Qed.
+Print Assumptions C20_hex_layer_orientation_of_source.
+
+Theorem C20_layer_orientation_of_source : forall w h d x y,
+  0 <= x < w -> 0 <= y < h ->
+  image_at (gen_layer_image_cmap w h d) x y = dget d x y /\
+  image_at (gen_layer_image_color w h d) x y = dget d x y.
+Proof. exact layer_orientation_of_source. Qed.
+Print Assumptions C20_layer_orientation_of_source.
+
+Theorem C20_drawn_mark_of_source : forall sp pt a,
+  drawn_mark sp pt a =
+  let m := gen_collect_mark (dflt_size sp) DEF_COLOR DEF_MARKER DEF_ZORDER (portray pt (a_kind a))
+                            (get (gen_agent_loc a) (0, 0)) in
+  {| m_loc := draw_loc sp (m_loc m); m_s := m_s m; m_c := m_c m; m_m := m_m m; m_z := m_z m |}.
+Proof. exact drawn_mark_of_source. Qed.
+Print Assumptions C20_drawn_mark_of_source.
+
 (* ------------------------------------------------------------------ non-vacuity *)
 Definition ex_space : space :=
   {| sp_family := Hex; sp_w := 3; sp_h := 2; sp_x0 := 0; sp_y0 := 0; sp_single := false;
@@ -271,3 +353,13 @@ Example C20_example_layer_write :
   layer_shape 3 2 [[1; 2]; [3; 4]; [5; 6]] /\
   layer_view ex_space (layer_set [[1; 2]; [3; 4]; [5; 6]] 2 0 9) = [Some 1; Some 3; Some 9; Some 2; Some 4; Some 6].
 Proof. split; [split; [reflexivity|repeat constructor]|vm_compute; reflexivity]. Qed.
+
+Example C20_example_source :
+  gen_check_model_params ex_sig [3; 4; 1; 9] = 0 /\ gen_check_model_params ex_sig [4] = 2 /\
+  length (gen_scatter (cols_of [ {| m_loc := (0, 0); m_s := (1, 1); m_c := 0; m_m := 0; m_z := 4 |};
+                                 {| m_loc := (1, 0); m_s := (2, 1); m_c := 1; m_m := 1; m_z := 6 |} ])) = 4%nat /\
+  gen_mesh_centres 2 2 = [(1, 0); (3, 0); (0, 3); (2, 3)] /\
+  (gen_hex_center_x 1 1, gen_hex_center_y 1) = (2, 3) /\
+  gen_hex_layer_colors 3 2 [[1; 2]; [3; 4]; [5; 6]] = [1; 3; 5; 2; 4; 6] /\
+  gen_split_model_params [(1, VFixed 5); (2, VSlider 6)] = ([(2, VSlider 6)], [(1, VFixed 5)]).
+Proof. vm_compute. repeat split; reflexivity. Qed.
